@@ -137,6 +137,7 @@ func (e *FnEnc) call(v ssa.Value, c *ssa.CallCommon, in ssa.Instruction) {
 			return
 		}
 		if con := e.W.ContractFor(f); con != nil {
+			e.ownedArgsCheck(c, f, con, in)
 			e.contractCall(v, con, f, args, f.Signature, in)
 			return
 		}
@@ -769,6 +770,37 @@ func callNames(c *ssa.CallCommon) map[string]bool {
 		}
 	}
 	return names
+}
+
+// ownedArgsCheck: an argument passed for an "owned" parameter must itself be reachable only through the value passed:
+// a local object that does not escape (other than into owned positions) or an owned parameter of the caller.
+func (e *FnEnc) ownedArgsCheck(c *ssa.CallCommon, f *ssa.Function, con *FuncContract, in ssa.Instruction) {
+	for _, o := range con.Owned {
+		for k, p := range f.Params {
+			if p.Name() != o || k >= len(c.Args) {
+				continue
+			}
+			ok := false
+			switch a := c.Args[k].(type) {
+			case *ssa.Alloc:
+				ok = !e.escapes(a)
+			case *ssa.MakeMap:
+				ok = !e.mapEscapes(a)
+			case *ssa.Parameter:
+				if e.con != nil {
+					for _, mine := range e.con.Owned {
+						if mine == a.Name() && !e.valueEscapes(a) {
+							ok = true
+						}
+					}
+				}
+			}
+			if !ok {
+				e.oblige(&Obligation{Name: fmt.Sprintf("call.%s.owned.%s@%s", mangle(calleeName(f)), o, e.posOf(in)), Kind: "protocol",
+					Clause: "the argument for owned parameter " + o + " is a local object that does not escape, or an owned parameter", Guard: e.curGuard, Goal: "false", Pos: e.posOf(in)})
+			}
+		}
+	}
 }
 
 // reachNames: the names of every function that may be called, transitively through static calls to functions of
